@@ -166,6 +166,138 @@ def r01e(ctx, rep, rule="R01e"):
     rep.floor(rule, "compiling functions that emit VPushAcc", n, 1)
 
 
+APP = COMPILE + "compile_runtime_procedure_application"
+CEXPR = COMPILE + "compile_expression"
+EMIT = "marwood::vm::lambda::Lambda::emit"
+
+
+def _emitted(f, t):
+    """what a Lambda::emit call emits: ('op', variant) / ('vcell', variant) / None"""
+    if (callee(t) or "") != EMIT or len(t["args"]) < 2:
+        return None
+    o = f.origin(t["args"][1])
+    if o[0] == "rv" and o[1]["rv"]["k"] == "agg":
+        adt = o[1]["rv"].get("adt") or ""
+        return ("op" if adt.endswith("OpCode") else "vcell", o[1]["rv"].get("variant"), o[1])
+    if o[0] == "const":
+        txt = o[1].get("text", "")
+        for v in ("TCallAcc", "CallAcc"):
+            if v in txt:
+                return ("op", v, None)
+    if o[0] == "local":
+        # `emit(match tail { true => TCallAcc, false => CallAcc })`: one local, one aggregate per branch
+        vs = set()
+        for d in f.defs().get(o[1], []):
+            if d[2] == "assign" and d[3]["rv"]["k"] == "agg" and (d[3]["rv"].get("adt") or "").endswith("OpCode"):
+                vs.add(d[3]["rv"].get("variant"))
+            elif d[2] != "partial":
+                return None
+        if vs and vs <= {"CallAcc", "TCallAcc"}:
+            return ("op", "CallAcc", None)
+    return None
+
+
+def r01i(ctx, rep, rule="R01i"):
+    from ..linear import Linear
+    facts = ctx["facts"]
+    rep.rule(rule, "the CALL protocol as the generator emits it: in compile_runtime_procedure_application (a) operands are "
+             "compiled in list order — one loop whose cursor advances by Cell::cdr and whose compile_expression takes "
+             "Cell::car of that cursor; (b) every iteration emits PUSH %acc after compiling its operand (must-pass-through "
+             "to the back edge); (c) the count emitted as ArgumentCount starts at 0 and is incremented by exactly one "
+             "site, inside that loop; (d) the operator is compiled after the loop and every emitted CALL / TCALL is "
+             "preceded by it, so %acc holds the procedure when the call executes.")
+    f = need(rep, rule, facts, APP)
+    if f is None:
+        return
+    ces = [(bb, t) for bb, t in f.calls() if callee(t) == CEXPR]
+    heads = {}
+    for src, h in f.back_edges():
+        heads.setdefault(h, set()).update((f.reach_from(h) & f.reach_back(src)) | {h, src})
+    in_loop = [(bb, t) for bb, t in ces if any(bb in body for body in heads.values())]
+    out_loop = [(bb, t) for bb, t in ces if not any(bb in body for body in heads.values())]
+    key = "%s|application" % rule
+    if len(in_loop) != 1 or len(out_loop) != 1 or len(heads) != 1:
+        rep.fail(rule, key + "|shape", "expected one operand loop with one compile_expression and one compile_expression for the "
+                 "operator outside it (found %d loop(s), %d inside, %d outside)" % (len(heads), len(in_loop), len(out_loop)), [f.span])
+        return
+    (head, body), = heads.items()
+    obb, ot = in_loop[0]
+    pbb, pt = out_loop[0]
+    # (a) operand = car(cursor); cursor advanced by cdr(cursor) in the loop; no reversal anywhere
+    def through(op, names):
+        o = f.origin(op)
+        for _ in range(4):
+            if o[0] == "call" and (callee(o[1]) or "").endswith(names):
+                return o[1]
+            if o[0] == "call" and (callee(o[1]) or "").endswith(("::unwrap", "::expect", "Try>::branch")) and o[1]["args"]:
+                o = f.origin(o[1]["args"][0])
+                continue
+            if o[0] == "call" and "Try>::branch" in (o[1].get("fnargs") or "") and o[1]["args"]:
+                o = f.origin(o[1]["args"][0])
+                continue
+            return None
+        return None
+    car = through(ot["args"][3], ("Cell::car",)) if len(ot["args"]) > 3 else None
+    cur_local = None
+    if car is not None:
+        oc = f.origin(car["args"][0])
+        cur_local = oc[1] if oc[0] == "local" else None
+    adv = False
+    if cur_local is not None:
+        for d in f.defs().get(cur_local, []):
+            if d[0] in body and d[2] == "assign":
+                cd = through(d[3]["rv"].get("a") if d[3]["rv"]["k"] == "use" else {"copy": d[3]["rv"].get("place")}, ("Cell::cdr",))
+                if cd is not None:
+                    oc = f.origin(cd["args"][0])
+                    if oc[0] == "local" and oc[1] == cur_local:
+                        adv = True
+    rev = [t for bb, t in f.calls() if (callee(t) or "").endswith(("::rev", "::reverse", "::pop", "::insert"))]
+    ok_a = car is not None and adv and not rev
+    (rep.ok if ok_a else rep.fail)(rule, key + "|operand-order", "operands are compiled in list order (car of a cursor advanced by cdr)" if ok_a else
+                                   "the operand loop does not compile car(cursor) for a cursor advanced by cdr%s: operands are not "
+                                   "evaluated left to right" % (" (a reversing call is present)" if rev else ""), [ot["loc"]])
+    # (b) PUSH %acc after each operand
+    pushes = [bb for bb, t in f.calls() if bb in body and (_emitted(f, t) or (None, None))[:2] == ("op", "PushAcc")]
+    ok_b = False
+    if pushes and ot.get("target") is not None:
+        reach = f.reach_from(ot["target"], avoid=set(pushes))
+        ok_b = head not in reach
+    (rep.ok if ok_b else rep.fail)(rule, key + "|push-each", "every iteration pushes %acc after compiling its operand" if ok_b else
+                                   "an iteration of the operand loop can return to the loop head without emitting PUSH %acc: the "
+                                   "operand's value is lost and the frame is short by one", [ot["loc"]])
+    # (c) argument count
+    argc_emit = [(bb, t, _emitted(f, t)) for bb, t in f.calls() if (_emitted(f, t) or (None, None))[:2] == ("vcell", "ArgumentCount")]
+    ok_c = False
+    why = "no ArgumentCount is emitted"
+    if argc_emit:
+        agg = argc_emit[0][2][2]
+        L = Linear(f)
+        o = f.origin(agg["rv"]["ops"][0])
+        if o[0] == "local":
+            n = o[1]
+            ds = [d for d in f.defs().get(n, []) if d[2] != "partial"]
+            inits = [d for d in ds if d[0] not in body]
+            incs = [d for d in ds if d[0] in body]
+            init_ok = len(inits) == 1 and inits[0][2] == "assign" and inits[0][3]["rv"]["k"] == "use" and (op_const(inits[0][3]["rv"]["a"]) or {}).get("int") == 0
+            inc_ok = False
+            if len(incs) == 1 and incs[0][2] == "assign" and incs[0][3]["rv"]["k"] == "use":
+                form = L.of(incs[0][3]["rv"]["a"])
+                inc_ok = form.c == 1 and len(form.t) == 1 and list(form.t.values())[0] == 1 and list(form.t)[0].key[:2] == ("local", n)
+            ok_c = init_ok and inc_ok
+            why = "the count %s" % ("does not start at 0" if not init_ok else "is not incremented by exactly one `+ 1` inside the operand loop")
+        else:
+            why = "the emitted count is not the loop's counter"
+    (rep.ok if ok_c else rep.fail)(rule, key + "|argc", "ArgumentCount(n): n starts at 0 and is incremented once per operand" if ok_c else
+                                   "the argument count pushed for CALL is wrong: %s" % why, [argc_emit[0][1]["loc"]] if argc_emit else [f.span])
+    # (d) operator last, CALL after it
+    calls_emit = [(bb, t) for bb, t in f.calls() if (_emitted(f, t) or (None, None))[:2] in (("op", "CallAcc"), ("op", "TCallAcc"))]
+    ok_d = bool(calls_emit) and head not in f.reach_from(pbb) and all(f.dominates(pbb, bb) for bb, t in calls_emit) \
+        and all(f.dominates(head, pbb) for _ in (0,))
+    (rep.ok if ok_d else rep.fail)(rule, key + "|operator-last", "the operator is compiled after the operands and before the emitted CALL / TCALL" if ok_d else
+                                   "the operator is not compiled between the operand loop and the emitted CALL / TCALL: %acc does not "
+                                   "hold the procedure when the call executes", [pt["loc"]])
+
+
 def run(ctx, rep):
     r01a(ctx, rep)
     rep.rule("R01c", "CALL/TCALL twin agreement: the builtin, continuation and non-procedure sub-arms of the CallAcc and "
@@ -179,5 +311,6 @@ def run(ctx, rep):
     prelude.r01f(ctx, rep)
     prelude.r01g(ctx, rep)
     prelude.r01h(ctx, rep)
+    r01i(ctx, rep)
     rep.not_decided += ["values computed by any program (the property as stated)", "a handler that is present but wrong",
-                        "left-to-right operand order beyond the order of emitted pushes"]
+                        "the order in which the machine pops operands back (ENTER / VARARG arithmetic is value-level)"]
